@@ -256,7 +256,7 @@ void brngHMACStepR(void* buf, size_t count, void* state)
 		beltHMACStepA(s->r, 32, s->state_ex);
 		beltHMACStepG(s->r, s->state_ex);
 		// Y_t <- beltHMAC(key, r || iv)
-		beltHMACStepA(s->iv, s->iv_len, s->state_ex);
+		beltHMACStepA(s->iv_len <= 64 ? s->iv_buf : s->iv, s->iv_len, s->state_ex);
 		beltHMACStepG(buf, s->state_ex);
 		// next
 		buf = (octet*)buf + 32;
@@ -270,7 +270,7 @@ void brngHMACStepR(void* buf, size_t count, void* state)
 		beltHMACStepA(s->r, 32, s->state_ex);
 		beltHMACStepG(s->r, s->state_ex);
 		// Y_t <- left(beltHMAC(key, r || iv))
-		beltHMACStepA(s->iv, s->iv_len, s->state_ex);
+		beltHMACStepA(s->iv_len <= 64 ? s->iv_buf : s->iv, s->iv_len, s->state_ex);
 		beltHMACStepG(s->block, s->state_ex);
 		memCopy(buf, s->block, count);
 		// next
